@@ -332,45 +332,53 @@ def econd_summary(ev, bound, rec):
 
 
 def check_efficient_cond(ctx, rule):
-  """efficient_cond's body implements cond(predicate, compute_fn(), init_state)."""
+  """efficient_cond's body implements cond(predicate, compute_fn(), init_state).
+
+  Evaluated with a compute function of known arity (two results) so that the loop state folds to plain tuples:
+  the while loop must start from (predicate, *init), run while state[0], and its body must produce
+  (False, *compute()) - hence it runs at most once, exactly when the predicate holds - and the function must
+  return the loop's components after the flag."""
+  from .spec import spec_term
   m = ctx.model
   fi = m.func('distributed_shampoo', 'efficient_cond')
   ctx.analysed(fi)
   ev = evaluator(m)
   P = param('efficient_cond', 'predicate')
-  F = param('efficient_cond', 'compute_fn')
+  C0, C1 = sym('spec', 'c0'), sym('spec', 'c1')
+  F = spec_term(ev, 'lambda: (c0, c1)', {'c0': C0, 'c1': C1})
   I = T('list', sym('spec', 'init0'), sym('spec', 'init1'))
   r = ev.run(fi, args={'predicate': P, 'compute_fn': F, 'init_state': I,
                        'args': T('tuple'), 'kwargs': T('dict')})
   ok = False
   why = 'unrecognised shape'
-  # tuple(results[1:]) where results = while(init=(pred, *init), body=(False, *compute()), cond=state[0])
-  t = r
-  if t.op == 'call' and t.args[0].op == 'builtin' and t.args[0].args[0] == 'tuple':
-    t = t.args[1][0]
+
+  def unwrap(t):
+    while t.op == 'call' and t.args[0].op == 'builtin' and t.args[0].args[0] in ('tuple', 'list') and len(t.args[1]) == 1:
+      t = t.args[1][0]
+    return t
+  t = unwrap(r)
+  comps = None
   if t.op == 'sub' and t.args[0].op == 'while' and t.args[1].op == 'slice' and is_const(t.args[1].args[0], 1) \
-      and is_const(t.args[1].args[1], None):
+      and is_const(t.args[1].args[1], None) and is_const(t.args[1].args[2], None):
     w = t.args[0]
+    comps = 'tail'
+  elif t.op in ('tuple', 'list') and len(t.args) == 2 and all(x.op == 'sub' and x.args[0].op == 'while' for x in t.args) and \
+      t.args[0].args[0] is t.args[1].args[0] and is_const(t.args[0].args[1], 1) and is_const(t.args[1].args[1], 2):
+    w = t.args[0].args[0]
+    comps = 'tail'
+  if comps:
     wid, init, body, cnd = w.args
-    if init.op == 'call':
-      init = init.args[1][0]
-    if body.op == 'call':
-      body = body.args[1][0]
+    init, body = unwrap(init), unwrap(body)
     st = T('wstate', wid)
     ok_init = init.op in ('list', 'tuple') and len(init.args) == 3 and init.args[0] is P and \
         init.args[1] is I.args[0] and init.args[2] is I.args[1]
-    if body.op == 'bin' and body.args[0] == '+' and body.args[1].op == 'list':
-      rest = body.args[2]
-      if rest.op == 'call' and rest.args[0].op == 'builtin' and rest.args[0].args[0] in ('list', 'tuple'):
-        rest = rest.args[1][0]
-      body = T('list', *(body.args[1].args + (T('star', rest, rest),)))
-    ok_body = body.op in ('list', 'tuple') and len(body.args) == 2 and is_const(body.args[0], False) and \
-        body.args[1].op == 'star' and body.args[1].args[0].op == 'call' and body.args[1].args[0].args[0] is F
+    ok_body = body.op in ('list', 'tuple') and len(body.args) == 3 and is_const(body.args[0], False) and \
+        body.args[1] is C0 and body.args[2] is C1
     ok_cond = cnd.op == 'sub' and cnd.args[0] is st and is_const(cnd.args[1], 0)
     ok = ok_init and ok_body and ok_cond
     why = f'init ok={ok_init} body ok={ok_body} cond ok={ok_cond}'
   ctx.ob(rule, fi.short, 'efficient_cond == cond(pred, compute(), init)', ok,
-         f'efficient_cond no longer implements "predicate ? compute_fn() : init_state" ({why})', ctx.loc(fi),
+         f'efficient_cond no longer implements "predicate ? compute_fn() : init_state" ({why}); got `{show(r, maxdepth=6)[:200]}`', ctx.loc(fi),
          sample='while(state[0]) over (predicate, *init) with body (False, *compute())')
   return ok
 
